@@ -124,7 +124,7 @@ theorem C17_model_meets_spec (c : Case) (hk : known c = []) :
   have hs := known_nil c hk
   have ht := table_eq_uses c
   simp only [spec, model, ht, helperClash_false c, hs, Bool.and_eq_true]
-  refine ⟨⟨⟨⟨⟨by decide, ?_⟩, by decide⟩, trivial⟩, ?_⟩, ?_⟩
+  refine ⟨⟨⟨⟨⟨⟨by decide, ?_⟩, by decide⟩, trivial⟩, trivial⟩, ?_⟩, ?_⟩
   · simp only [Bool.not_eq_true', List.any_eq_false, beq_iff_eq]
     intro u hu
     exact entryOk_not_module c u (uses_entryOk c u hu)
